@@ -790,6 +790,17 @@ def direct_oracle(rec, b):
                     bad.append(("no-worse", "summed quality got worse: %.12g (clamps on their manifolds) -> %.12g" % (qs, qa)))
             if qa > qb + TOL_INIT * max(1.0, abs(qb)):
                 bad.append(("no-worse", "summed quality got worse: %.9g -> %.9g" % (qb, qa)))
+    # the driver's own record: 1..max_iterations passes; from the second pass on every clamp sits, so a pass
+    # ends no worse than it began and begins where the previous one ended (same state, same floats)
+    its = rec.get("iterations")
+    if its is not None:
+        if not (1 <= len(its) <= spec["iterations"]):
+            bad.append(("iterations", "%d iterations were run for max_iterations=%d" % (len(its), spec["iterations"])))
+        for k in range(1, len(its)):
+            if its[k][0] != its[k - 1][1]:
+                bad.append(("iterations", "iteration %d starts at quality %.17g, the previous one ended at %.17g" % (k + 1, its[k][0], its[k - 1][1])))
+            if its[k][1] > its[k][0]:
+                bad.append(("no-worse", "iteration %d made the summed quality worse: %.17g -> %.17g" % (k + 1, its[k][0], its[k][1])))
     # backport: observable positions = the optimizer's final point array
     fin = rec["final"][0]
     for i in range(n):
@@ -1043,7 +1054,8 @@ def classify_setup_error(spec, msg):
 class C13(Prop):
     pid = "C13"
     title = "Optimization never worsens quality; only clamped vertices move, on constraints"
-    prebuilt = ["Model/C13_Optimizer.v", "Model/C13_Cases.v", "Proofs/C13_Optimizer.v", "Proofs/C13_Instances.v"]
+    prebuilt = ["Model/C13_Optimizer.v", "Model/C13_Cases.v", "Proofs/C13_Optimizer.v", "Proofs/C13_Whole.v",
+                "Proofs/C13_Instances.v"]
     gen_dependent_files = []
     property_files = ["Properties/C13.v"]
     trusted = [
@@ -1123,13 +1135,15 @@ class C13(Prop):
             texts.append((k, out["coq"]))
         if not coq:
             return res
-        per = 6
-        for s in range(0, len(texts), per):
-            chunk = texts[s:s + per]
+        # at most 16 case files (one per core); the expensive cases (recorded scipy runs) come last in
+        # [specs], so deal the cases out round-robin to balance the files
+        nfiles = max(1, min(16, (len(texts) + 5) // 6))
+        for s in range(nfiles):
+            chunk = texts[s::nfiles]
             body = [CASE_PRELUDE] + [t for (_k, t) in chunk]
             body.append("Eval vm_compute in (map fst (filter (fun c => negb (snd c)) [%s]))." % "; ".join(
                 "(%d%%nat, case_%d)" % (k, k) for (k, _t) in chunk))
-            shards.append(("cases_%d" % (s // per), "\n".join(body) + "\n"))
+            shards.append(("cases_%d" % s, "\n".join(body) + "\n"))
         t0 = time.time()
         results = core.run_cases_parallel(ctx, shards)
         ctx.log("S3: %d case files evaluated by Coq in %.1fs" % (len(shards), time.time() - t0))
